@@ -913,14 +913,19 @@ pub fn run(ctx: &Ctx) -> Report {
     let mut scratch = Report::new();
     let cl_pair = closure::<Pair>(&mut scratch, cap);
     let cl_whole = closure::<Whole>(&mut scratch, cap);
+    // a closure that met violations stopped expanding the failing states: it is then incomplete, and
+    // the "every shape the DFS reaches is in the closure" cross-check has nothing to say
+    let closure_complete = scratch.violations.is_empty();
+    let cl_pair_opt = if closure_complete { Some(&cl_pair) } else { None };
+    let cl_whole_opt = if closure_complete { Some(&cl_whole) } else { None };
     if ctx.owns(0) {
         scratch.evaluations = scratch.transitions;
         rep.merge(scratch);
     }
     let depth = ctx.tier.pick(7, 8);
     let mut unit = 0usize;
-    dfs::<Pair, SpyVec<Pair>>(ctx, &mut rep, Some(&cl_pair), cap, depth, &mut unit, &[], false);
-    dfs::<Whole, SpyVec<Whole>>(ctx, &mut rep, Some(&cl_whole), cap, depth, &mut unit, &[], false);
+    dfs::<Pair, SpyVec<Pair>>(ctx, &mut rep, cl_pair_opt, cap, depth, &mut unit, &[], false);
+    dfs::<Whole, SpyVec<Whole>>(ctx, &mut rep, cl_whole_opt, cap, depth, &mut unit, &[], false);
     dfs::<Pair, SmallVec<[Pair; 4]>>(ctx, &mut rep, None, cap, depth, &mut unit, &[], false);
     dfs::<Whole, Vec<Whole>>(ctx, &mut rep, None, cap, depth - 1, &mut unit, &[], false);
     for p in prefixes() {
